@@ -26,6 +26,10 @@ def main() -> int:
     try:
         with _deadline(EXEC_DEADLINE_S):
             res = harness.execute(rec["program"], ch)
+    except Exception as exc:  # noqa: BLE001
+        from hv.core import library_exception_result
+
+        res = library_exception_result(exc)
     except ExecutionTimeout:
         res = Result(
             "timeout",
